@@ -74,6 +74,58 @@ def opResolve (j : Json) : R Json := do
   let ps ← (← fArr j "paths").mapM decPath
   return Json.arr (ps.map fun p => encPath (resolveUnder root p)).toArray
 
+open Cfg in
+def encBH : ByHashOpt → Json | .yes => "yes" | .no => "no" | .force => "force"
+
+def encS (s : Str.S) : Json := Json.str (String.ofList s)
+
+open Cfg in
+def encRepo (r : RepoRec) : Json :=
+  match r.kind with
+  | .std cns => Json.mkObj [("key", encS r.key), ("flat", Json.bool false),
+      ("codenames", Json.arr (cns.map fun c => Json.mkObj [("name", encS c.name), ("by_hash", encBH c.byHash),
+        ("components", Json.arr (c.comps.map fun k => Json.mkObj [("name", encS k.name), ("source", Json.bool k.source),
+          ("arches", Json.arr (k.arches.map encS).toArray)]).toArray)]).toArray)]
+  | .flat dirs => Json.mkObj [("key", encS r.key), ("flat", Json.bool true),
+      ("dirs", Json.arr (dirs.map fun d => Json.mkObj [("dir", encS d.dir), ("by_hash", encBH d.byHash),
+        ("source", Json.bool d.source), ("binaries", Json.bool d.binaries)]).toArray)]
+
+open Cfg in
+def encTuple (t : Tuple) : Json :=
+  Json.arr #[encS t.repo, encS t.codename, encS t.component,
+    match t.what with | .arch a => Json.str ("arch:" ++ String.ofList a) | .source => "source" | .binaries => "binaries"]
+
+open Cfg in
+/-- {"lines":[str...], "default_arch": str} -> repositories as the merge of the deb lines -/
+def opConfig (j : Json) : R Json := do
+  let lines ← (← fArr j "lines").mapM (·.getStr?)
+  let da ← fStr j "default_arch"
+  let mut cfgs : List LineCfg := []
+  let mut skipped : List Json := []
+  for ln in lines do
+    match fromLine ln.toList da.toList with
+    | .ok c => cfgs := cfgs ++ [c]
+    | .error .valueError => skipped := skipped ++ [Json.str ln]
+    | .error .mixedFlat => return Json.mkObj [("error", "mixed-flat-codenames")]
+  match load cfgs with
+  | .error _ => return Json.mkObj [("error", "mixed-flat-repository")]
+  | .ok repos =>
+    return Json.mkObj [("repos", Json.arr (repos.map encRepo).toArray), ("skipped", Json.arr skipped.toArray),
+      ("tuples", Json.arr ((tuples repos).map encTuple).toArray)]
+
+open Cfg in
+def opFindKey (j : Json) : R Json := do
+  let keys ← (← fArr j "keys").mapM (·.getStr?)
+  let ks ← (← fArr j "queries").mapM (·.getStr?)
+  return Json.arr (ks.map fun k => match findKey (keys.map String.toList) k.toList with
+    | some r => encS r | none => Json.null).toArray
+
+open Cfg in
+def opBoolSize (j : Json) : R Json := do
+  let vs ← (← fArr j "values").mapM (·.getStr?)
+  return Json.arr (vs.map fun v => Json.arr #[Json.bool (getBool v.toList),
+    match getSize v.toList with | some n => Json.num n | none => Json.null]).toArray
+
 def dispatch (j : Json) : R Json := do
   let op ← fStr j "op"
   match op with
@@ -83,6 +135,9 @@ def dispatch (j : Json) : R Json := do
   | "exit" => opExit j
   | "moveops" => opMoveOps j
   | "lexsafe" => opLexSafe j
+  | "config" => opConfig j
+  | "findkey" => opFindKey j
+  | "boolsize" => opBoolSize j
   | "plainname" => opPlainName j
   | "resolve" => opResolve j
   | _ => throw s!"unknown op {op}"
